@@ -507,7 +507,14 @@ partial def toGoTy (j : Json) : Except String GoTy := do
   let k ← j.getObjValAs? String "k"
   match k with
   | "bool" => pure .bool
-  | "int" => pure .int
+  | "int" | "int64" => pure int64
+  | "int8" => pure int8
+  | "int16" => pure int16
+  | "int32" => pure int32
+  | "uint8" => pure uint8
+  | "uint16" => pure uint16
+  | "uint32" => pure uint32
+  | "uint64" | "uint" => pure uint64
   | "string" => pure .string
   | "ptr" => do pure (.ptr (← toGoTy (← j.getObjVal? "t")))
   | "slice" => do pure (.slice (← toGoTy (← j.getObjVal? "t")))
@@ -534,7 +541,7 @@ def goJsonD (j : Json) : Except String Json := do
   let out := match dec with
     | none => Json.null
     | some gv => match encode t gv with | some r => ofJVal r | none => Json.str "$encode-failed"
-  pure (Json.mkObj [("decoded", Json.bool dec.isSome), ("out", out), ("valid", Json.bool (wf t && valid t v))])
+  pure (Json.mkObj [("decoded", Json.bool dec.isSome), ("out", out), ("valid", Json.bool (wf t && valid t v)), ("infragment", Json.bool (wf t))])
 
 def dispatch (fn : String) (j : Json) : Except String Json :=
   match fn with
